@@ -6,16 +6,21 @@
      R nds=<nds_front model (front end)> fast=<fast_nds model> dc=<dc_nds model (divide-and-conquer sort)> spec=<rank_list>
      H spec=<hv_spec> a2=<hv2d model | -> a3=<hv3d model (3-D sweep) | -> wfg=<wfg model | -> (n <= 24)
        lim=<wfg_limit (points 2..n) (point 1), sorted, p1,..,pd/..  | -> (n >= 2, n <= 24)
-       disp=<hv_dispatch model of the front end; HOY slot (4 objectives) filled with hv_spec | -> (WFG branch: n <= 24)
+       disp=<hv_dispatch model of the front end; HOY slot (4 objectives) filled with the hoy model | -> (WFG branch: n <= 24)
      K k=<k> spec=<contribs_spec by index> c2d=<contrib2d_ref by index | -> small=.. large=.. (k extremal values of spec)
-       md=<contribs_md_inst by index (model of HypervolumeContributionMD; HOY slot filled with hv_spec)>
+       md=<contribs_md_inst by index (model of HypervolumeContributionMD; HOY slot filled with the hoy model)>
        mds=<smallest_kv k of it, value@index;..> mdl=<largest_kv k of it>
        c3d=<contribs3d by index (model of HypervolumeContribution3D::allContributions) | -> c3s=<smallest_kv k of it> c3l=<largest_kv k>
      N k=<k> c2d=<contrib2d_noref value@index list | ->       (spec with implied reference: see c13.py)
        ns=<noref_front (smallest) model: value@index;..> nl=<noref_front (largest)> iref=<implicit reference point>
        nall=<contribs_spec w.r.t. the implicit reference point, by index>
      S k=<k> best=<best_subset_hv> front=<front_size> sel=<hssp2d model: 0/1 per point | EXC | -> hvsel=<hv_spec of the
-       points the model selects | ->            (sel only for n <= 16: libstdc++ insertion sort)  | S SKIP *)
+       points the model selects | ->            (sel only for n <= 16: libstdc++ insertion sort)  | S SKIP
+     H also prints hoy=<hoy model (HypervolumeCalculatorMDHOY, C13Hoy.v) | -> (>= 3 objectives); disp= uses it in the HOY slot
+   Query Y = direct call of HypervolumeCalculatorMDHOY::stream; ALL numbers of the case are the doubled values:
+     C Y <m> <sqrtNoPoints> up_1 .. up_{m-1} cover ;  l <split> low_1 .. low_{m-1} ;  p x1 .. xm (sorted by the last objective)
+     Y st=<2^m * result> tr=<sizes of pointsChildUp, pointsChildLow of every splitting call, post-order> nb=<split bounds, pre-order>
+       med=<getMedian of the first objectives> trel=<2^(m-1) * computeTrellis(low, up, clamp(first point))> *)
 open C13_model
 
 let rec nat_of_int n = if n <= 0 then O else S (nat_of_int (n - 1))
@@ -34,6 +39,7 @@ let () =
   let ic = open_in Sys.argv.(1) in
   let query = ref "R" and k = ref 0 and d = ref 0 in
   let refp = ref [] and pts = ref [] in
+  let lowl = ref None in
   (try
     while true do
       let l = input_line ic in
@@ -42,11 +48,14 @@ let () =
       | [] -> print_newline ()
       | "C" :: q :: dd :: kk :: r ->
         query := q; d := int_of_string dd; k := int_of_string kk;
-        refp := List.map (fun x -> z_of_int (int_of_string x)) r; pts := [];
+        refp := List.map (fun x -> z_of_int (int_of_string x)) r; pts := []; lowl := None;
         print_endline "C"
       | "p" :: xs ->
         pts := List.map (fun x -> z_of_int (int_of_string x)) xs :: !pts;
         print_endline "p"
+      | "l" :: sp :: xs ->
+        lowl := Some (int_of_string sp, List.map (fun x -> z_of_int (int_of_string x)) xs);
+        print_endline "l"
       | "E" :: _ ->
         let s = List.rev !pts in
         let n = List.length s in
@@ -66,8 +75,28 @@ let () =
                let l = List.sort compare (List.map (List.map int_of_z) (wfg_limit rest p)) in
                if l = [] then "none" else String.concat "/" (List.map (fun q -> String.concat "," (List.map string_of_int q)) l)
              | _ -> "-" in
-           let disp = if !d <= 4 || n <= 24 then sz (hv_dispatch hv_spec !refp s) else "-" in
-           Printf.printf "H spec=%s a2=%s a3=%s wfg=%s lim=%s disp=%s\n" (sz v) a2 a3 w lim disp
+           let disp = if !d <= 4 || n <= 24 then sz (hv_dispatch hoy !refp s) else "-" in
+           let hy = if !d >= 3 then sz (hoy !refp s) else "-" in
+           Printf.printf "H spec=%s a2=%s a3=%s wfg=%s lim=%s disp=%s hoy=%s\n" (sz v) a2 a3 w lim disp hy
+         | "Y" ->
+           (match !lowl with
+            | None -> print_endline "Y nolow"
+            | Some (split, low) ->
+              let rec but_last = function [] -> [] | [_] -> [] | x :: t -> x :: but_last t in
+              let up = but_last !refp and cover = List.nth !refp (List.length !refp - 1) in
+              let sq = nat_of_int !k and sp = nat_of_int split in
+              let st = hoy_stream sq low up s sp cover in
+              let tr = hoy_stream_trace sq low up s sp cover in
+              let nb = hoy_stream_bounds sq low up s sp cover in
+              let med = if s = [] then "-" else sz (median (List.map List.hd s)) in
+              let trel = match s with
+                | [] -> "-"
+                | p :: _ -> let t = List.map2 (fun (l, u) x -> let x = int_of_z x in z_of_int (Stdlib.max (int_of_z l) (Stdlib.min (int_of_z u) x)))
+                                      (List.combine low up) (but_last p) in
+                            sz (compute_trellis low up t) in
+              Printf.printf "Y st=%s tr=%s nb=%s med=%s trel=%s\n" (sz st)
+                (if tr = [] then "none" else join snat tr)
+                (if nb = [] then "none" else String.concat ";" (List.map (fun (j, b) -> snat j ^ "@" ^ sz b) nb)) med trel)
          | "K" ->
            if n = 0 then print_endline "K empty" else begin
              let c = contribs_spec !refp s in
@@ -77,7 +106,7 @@ let () =
                  List.iter (fun (v, i) -> let i = int_of_nat i in if i < n then arr.(i) <- sz v) l;
                  String.concat "," (Array.to_list arr) end else "-" in
              let kvs l = if l = [] then "none" else String.concat ";" (List.map (fun (v, i) -> sz v ^ "@" ^ snat i) l) in
-             let md = contribs_md_inst hv_spec !refp s in
+             let md = contribs_md_inst hoy !refp s in
              let by_index l = let arr = Array.make n "?" in
                List.iter (fun (v, i) -> let i = int_of_nat i in if i < n then arr.(i) <- sz v) l;
                String.concat "," (Array.to_list arr) in
@@ -86,7 +115,7 @@ let () =
                  (by_index l, kvs (smallest_kv (nat_of_int keff) l), kvs (largest_kv (nat_of_int keff) l)) end
                else ("-", "-", "-") in
              Printf.printf "K k=%d d=%d fes=%s fel=%s spec=%s c2d=%s c3d=%s c3s=%s c3l=%s small=%s large=%s md=%s mds=%s mdl=%s\n" keff !d
-               (kvs (contrib_front_smallest hv_spec !refp s (nat_of_int keff))) (kvs (contrib_front_largest hv_spec !refp s (nat_of_int keff)))
+               (kvs (contrib_front_smallest hoy !refp s (nat_of_int keff))) (kvs (contrib_front_largest hoy !refp s (nat_of_int keff)))
                (join sz c) c2 c3 c3s c3l
                (join sz (smallest_k (nat_of_int keff) c)) (join sz (largest_k (nat_of_int keff) c))
                (join (fun (v, _) -> sz v) md) (kvs (smallest_kv (nat_of_int keff) md)) (kvs (largest_kv (nat_of_int keff) md))
@@ -103,7 +132,7 @@ let () =
              let kvs l = if l = [] then "none" else String.concat ";" (List.map (fun (v, i) -> sz v ^ "@" ^ snat i) l) in
              let ir = implicit_ref s in
              Printf.printf "N k=%d %s ns=%s nl=%s iref=%s nall=%s\n" keff c2
-               (kvs (noref_front hv_spec false s (nat_of_int keff))) (kvs (noref_front hv_spec true s (nat_of_int keff)))
+               (kvs (noref_front hoy false s (nat_of_int keff))) (kvs (noref_front hoy true s (nat_of_int keff)))
                (join sz ir) (join sz (contribs_spec ir s))
            end
          | "S" ->
